@@ -5,6 +5,7 @@ package main
 import (
 	"go/token"
 	"go/types"
+	"math"
 	"strings"
 
 	"golang.org/x/tools/go/ssa"
@@ -1053,6 +1054,43 @@ func ruleC09Ifchanged(p *Prog, a *Anchors, r *Report) {
 			}
 		}
 	}
+	// the content form compares the rendered body with what it remembered — and remembers nothing before the first
+	// execution. An empty body equals "nothing" (bytes.Equal(nil, []byte{})), so the unchanged arm must also know that
+	// there WAS a previous execution, or the very first pass of a loop renders the else-part.
+	for _, b := range exec.Blocks {
+		for _, in := range b.Instrs {
+			c, ok := in.(*ssa.Call)
+			if !ok || c.Common().StaticCallee() == nil || c.Common().StaticCallee().Name() != "Execute" || len(c.Common().Args) == 0 || !loadsField(c.Common().Args[0], "tagIfchangedNode", "elseWrapper") {
+				continue
+			}
+			byContent := Guarded(in, func(cond ssa.Value, pol bool) bool {
+				cc, isCall := cond.(*ssa.Call)
+				return isCall && pol && cc.Common().StaticCallee() != nil && p.extName(cc.Common().StaticCallee()) == "bytes.Equal"
+			})
+			if !byContent {
+				continue
+			}
+			seen := Guarded(in, func(cond ssa.Value, pol bool) bool {
+				// a bool field of the remembered state that says "executed before", or the remembered content != nil
+				if u, isU := cond.(*ssa.UnOp); isU && u.Op == token.MUL && pol {
+					if fa, isFA := u.X.(*ssa.FieldAddr); isFA {
+						if n := structOf(fa.X.Type()); n != nil && n.Obj().Name() == "tagIfchangedState" {
+							if bt, isB := u.Type().Underlying().(*types.Basic); isB && bt.Kind() == types.Bool {
+								return true
+							}
+						}
+					}
+				}
+				x, eq, isNil := condIsNilTest(cond)
+				return isNil && eq != pol && loadsField(x, "tagIfchangedState", "lastContent")
+			})
+			if seen {
+				r.OK("else:not-first", p.InstrPos(in), "the content form reaches its else-part only when the tag was executed before in this rendering")
+			} else {
+				r.Bad("else:not-first", p.InstrPos(in), "the content form decides \"unchanged\" by bytes.Equal with what it remembered alone: before the first execution it remembers nothing, which equals an empty body — {%% ifchanged %%}{{ x }}{%% else %%}-{%% endifchanged %%} renders `-` in the first pass of a loop when x is empty")
+			}
+		}
+	}
 	// "differs from the previous iteration": the comparator must answer "same" for two equal values of every kind.
 	// (*Value).EqualValueTo does not: it returns false as soon as one side is the nil value and for everything ==
 	// cannot compare (read off its own source below). A tag that decides by EqualValueTo alone therefore prints on
@@ -1171,7 +1209,72 @@ func ruleC09SortOrder(p *Prog, a *Anchors, r *Report) {
 				}
 			}
 		}
+		// numbers compared exactly through math/big (Cmp) need neither of the two machine comparisons
+		exact := false
+		var intCmp, floatCmp ssa.Instruction
+		for _, fn := range clusterOf(p, f, 2) {
+			if recv := fn.Signature.Recv(); recv != nil && fn != f {
+				continue
+			}
+			for _, b := range fn.Blocks {
+				for _, in := range b.Instrs {
+					if c, ok := in.(*ssa.Call); ok && c.Common().StaticCallee() != nil && c.Common().StaticCallee().Name() == "Cmp" && c.Common().StaticCallee().Pkg != nil && c.Common().StaticCallee().Pkg.Pkg.Path() == "math/big" {
+						exact = true
+					}
+					if x, ok := in.(*ssa.BinOp); ok && (x.Op == token.LSS || x.Op == token.GTR) && isNumeric(x.X.Type()) {
+						if _, isC := x.Y.(*ssa.Const); isC {
+							continue
+						}
+						if bt, _ := x.X.Type().Underlying().(*types.Basic); bt != nil {
+							if bt.Info()&types.IsFloat != 0 {
+								floatCmp = in
+							} else if bt.Info()&types.IsInteger != 0 {
+								if c, isCall := x.X.(*ssa.Call); isCall && c.Common().StaticCallee() != nil && c.Common().StaticCallee().Name() == "Integer" {
+									intCmp = in
+								}
+							}
+						}
+					}
+				}
+			}
+		}
+		// distinct values must not tie: Integer() saturates unsigned values beyond the int range (all of them become
+		// MaxInt), and a float comparison treats NaN as equal to everything while the others differ — in both cases
+		// "neither less" is not transitive and the sort result depends on the order of arrival (for a map: random)
+		if intCmp != nil {
+			saturates := false
+			if acc := p.Method("Value", "Integer"); acc != nil {
+				for _, ret := range returnsOf(acc) {
+					if k, isK := constInt(ret.Results[0]); isK && (k == math.MaxInt64 || k == math.MinInt64) {
+						saturates = true
+					}
+				}
+			}
+			if saturates {
+				r.Bad(p.FuncName(f)+":integers-distinct", p.InstrPos(intCmp), "two integers are ordered by Integer() < Integer(), and Integer() maps every unsigned value beyond the int range to the same number: distinct uint64 keys above MaxInt64 all tie, so a map with such keys is iterated in Go's random map order")
+			} else {
+				r.OK(p.FuncName(f)+":integers-distinct", p.InstrPos(intCmp), "Integer() maps distinct integers to distinct numbers")
+			}
+		}
+		if floatCmp != nil {
+			nanGuard := Guarded(floatCmp, func(c ssa.Value, pol bool) bool {
+				if cc, ok := c.(*ssa.Call); ok && cc.Common().StaticCallee() != nil && p.extName(cc.Common().StaticCallee()) == "math.IsNaN" {
+					return !pol
+				}
+				if bo, ok := c.(*ssa.BinOp); ok && bo.Op == token.NEQ && bo.X == bo.Y {
+					return !pol
+				}
+				return false
+			})
+			if nanGuard {
+				r.OK(p.FuncName(f)+":nan", p.InstrPos(floatCmp), "the float comparison is reached only for numbers that are not NaN")
+			} else {
+				r.Bad(p.FuncName(f)+":nan", p.InstrPos(floatCmp), "floats are ordered by < without a NaN test: NaN is \"equal\" to every number while the others differ, so one NaN key makes the order of all the float keys of a map depend on Go's random map order")
+			}
+		}
 		switch {
+		case exact && !hasInt && !hasFloat:
+			r.OK(key, p.Pos(f.Pos()), "numbers are compared exactly (math/big Cmp)")
 		case !hasInt:
 			r.Bad(key, p.Pos(f.Pos()), "the ordering has no integer comparison (Integer() < Integer()): two integers are compared as floats (or as text), so distinct integers above 2^53 tie and `sorted` leaves them in arrival order")
 		case !intGuarded:
